@@ -4,6 +4,13 @@ that claimed checks and the not_applicable list can never drift apart)."""
 import json, sys
 
 CHECKS = {
+ "C01": dict(
+   category="model_checking",
+   text="AP-REQs minted by the independent reference (DER + crypto) for each of the six etypes are presented to the real APReq.Unmarshal + service.VerifyAPREQ under a virtual clock: the valid request and every single defect of a 52-entry catalogue under all 108 combinations of service settings, and every pair of defects (1326 pairs) under two settings (quick) or all settings (thorough). The verdict must equal the biconditional transcribed from the property statement (inclusive skew boundaries at 1 ns / 1 us resolution), the reported user, realm and expiry must be the values sealed in the ticket, and a panic is a violation.",
+   design="DESIGN.md 2/C01",
+   note="Not judged (statement silent): empty/krbtgt ticket sname under a principal override, empty client names, ticket addresses with no client address configured. PAC cases are added by the C19 machinery. Key bytes seeded; error codes are recorded but not judged.",
+   technique="bounded-exhaustive enumeration of valid + 1-2 catalogue deviations x configurations on the real code against a reference predicate",
+   engine="enum"),
  "C02": dict(
    category="model_checking",
    text="Stateless exploration of every interleaving (iterative preemption bounding, then unbounded for <=3 threads in the thorough tier) of 2-4 thread scenarios over the real replay cache singleton, its real clean-up goroutine included, under a cooperative scheduler that owns every lock/once/sleep/clock operation; plus breadth-first explicit-state search over every history of presentations, clock advances and clean-ups up to depth 5 (7 thorough) against a reference set model, deduplicated by canonical (cache dump, reference) state. A free-running -race pass over the same scenario bodies covers unsynchronised accesses.",
